@@ -813,6 +813,9 @@ func (c *ClientConn) readDisconnectLoop() {
 
 func (c *ClientConn) readUpstreamChunkAckLoop() {
 	defer func() {
+		// under the table lock: streams are still being opened and closed while the connection winds down
+		c.upstreams.mu.Lock()
+		defer c.upstreams.mu.Unlock()
 		for _, ackCh := range c.upstreams.acks {
 			close(ackCh)
 		}
